@@ -80,7 +80,11 @@ fn check_card(rep: &mut Rep, i: u8, seqs: &[Vec<u8>], words_seen: &mut std::coll
             && marked.get_suit_flag() == c.get_suit_flag()
             && marked.get_rank_char() == c.get_rank_char()
             && marked.get_suit_char() == c.get_suit_char()
-            && marked.get_suit_letter() == c.get_suit_letter();
+            && marked.get_suit_letter() == c.get_suit_letter()
+            // the accessors derived from the rank and suit fields read the same as well
+            && marked.get_chen_points() == c.get_chen_points()
+            && marked.next_suit() == c.next_suit()
+            && marked.is_blank() == c.is_blank();
         // ... and as the layout says
         let by_layout = marked.get_rank_bit() == 1 << r
             && marked.get_rank_prime() == model::PRIMES[r as usize]
@@ -93,8 +97,8 @@ fn check_card(rep: &mut Rep, i: u8, seqs: &[Vec<u8>], words_seen: &mut std::coll
                 "rank, suit, prime and characters of a marked card read the same as on the unmarked card",
                 "accessors on a marked word",
                 inp(),
-                format!("rank {:?} suit {:?} prime {} chars {}{}{}", c.get_card_rank(), c.get_card_suit(), c.get_rank_prime(), c.get_rank_char(), c.get_suit_char(), c.get_suit_letter()),
-                format!("rank {:?} suit {:?} prime {} chars {}{}{}", marked.get_card_rank(), marked.get_card_suit(), marked.get_rank_prime(), marked.get_rank_char(), marked.get_suit_char(), marked.get_suit_letter()),
+                format!("rank {:?} suit {:?} prime {} chars {}{}{} chen points {} next suit {:?}", c.get_card_rank(), c.get_card_suit(), c.get_rank_prime(), c.get_rank_char(), c.get_suit_char(), c.get_suit_letter(), c.get_chen_points(), c.next_suit()),
+                format!("rank {:?} suit {:?} prime {} chars {}{}{} chen points {} next suit {:?}", marked.get_card_rank(), marked.get_card_suit(), marked.get_rank_prime(), marked.get_rank_char(), marked.get_suit_char(), marked.get_suit_letter(), marked.get_chen_points(), marked.next_suit()),
             );
         }
         rep.evaluations += 1;
